@@ -72,6 +72,19 @@ func runConc(src sim.Source, o Opts, res *Result, plan concPlan) {
 		}
 		progs = append(progs, p)
 	}
+	// what was generated: operation kinds and transaction endings (faults) of this run
+	for _, p := range progs {
+		for _, op := range p {
+			res.inc("op_" + op.Kind)
+			if op.Kind == "txn" {
+				res.inc("fault_txn_end_" + op.Txn.End)
+				if op.Txn.SnapAt >= 0 {
+					res.inc("txn_with_snapshot")
+				}
+			}
+		}
+	}
+	res.inc(fmt.Sprintf("cow_cache_capacity_%d", cw.cfg.CacheSize))
 	s := sim.NewSched(src)
 	s.KeepTrace = o.Trace
 	drawPolicy(src, s)
